@@ -26,6 +26,9 @@ RULE = ("cases = chain of 1..3 classes (attrs: slots x frozen x cache_hash x wea
         "(preferably equal to the alias of an init=False field of the chain); chains whose init fields all have a plain default (the very object "
         "standing for the value) or a factory, built without passing anything, and histories where a field is changed and set back to the same "
         "object (all harness-only variation); "
+        "decorator-object histories: for most class-statement classes `deco = attr.s(...)` / `define(...)` / `frozen(...)` is created once in the "
+        "synthetic module and applied first to a priming class (hand-written state methods / stand-alone / bare subclass of the same base), "
+        "then to the class under test -- every class of a chain independently; "
         "a dunder-like field name (`__meta__`); HISTORIES of definitions: for half of the chains the same module + qualnames were defined and used "
         "(constructed, copied, pickled) once before with the same options and number of fields but other field names, or the same names in "
         "reverse order (harness-only: the model knows no earlier definition); "
@@ -124,6 +127,8 @@ def vary_front(c, rng):
     # history of definitions (read on the last class of a chain): the same module + qualnames were defined and used
     # before with other field names / another field order
     c["decoy"] = rng.choice([None, None, None, "rename", "rename", "reverse"])
+    # history of the decorator object (class-statement front-ends): created once, applied to a priming class first
+    c["prime"] = rng.choice([None, None, "own", "alone", "base"])
     return c
 
 
@@ -381,6 +386,7 @@ def dist(case, obs):
         "cacheAfter": obs.get("cacheAfter") if isinstance(obs, dict) else "?",
         "front_end": leaf.get("api") + ("/" + leaf["front"] if leaf.get("front", "class") != "class" else "") + ("/nested" if leaf.get("nested") else ""),
         "exception": ("auto_exc" if case.get("exc") else "no") + ("+defaults" + ("" if case.get("cfg", {}).get("passArgs", True) else " unpassed") if any(f.get("factory") or f.get("default") for f in B.leaf_fields(chain)) else ""),
+        "decorator_object": str(chain[-1].get("prime")) if chain[-1].get("front", "class") == "class" else "n/a",
         "earlier_definition": str(chain[-1].get("decoy")),
         "aliases": ("explicit" if any(f.get("alias") for f in B.leaf_fields(chain)) else "-") + ("+shared" if len({(f.get("alias") or f["name"].lstrip("_")) for f in B.leaf_fields(chain)}) < len(B.leaf_fields(chain)) else ""),
         "unusual_values": ",".join(sorted({f["special"] for f in B.leaf_fields(chain) if f.get("special")})) or "-",
@@ -389,7 +395,7 @@ def dist(case, obs):
 
 _DEFAULT_ATTRS = dict(slots=False, frozen=False, cacheHash=False, weakrefSlot=True, gs="none", autoDetect=False,
                       userGS=False, eq=True, unsafeHash=False, collectByMro=False, api="attr.s", explicit=True,
-                      gsExplicitNone=False, hashKw="unsafe_hash", front="class", nested=False, decoy=None)
+                      gsExplicitNone=False, hashKw="unsafe_hash", front="class", nested=False, decoy=None, prime=None)
 
 
 def _variants(case):
